@@ -54,8 +54,25 @@ fn type_of(o: &AnyBv) -> &'static str { match o { AnyBv::Plain(_) => "plain", An
 
 pub fn bytes_of(o: &AnyBv) -> Vec<u8> { match o { AnyBv::Plain(b) => to_bytes(b), AnyBv::Sparse(b) => to_bytes(b), AnyBv::RL(b) => to_bytes(b) } }
 
+/// The three optional support structures of a serialized plain bitvector can each be skipped (whichever are present), through a
+/// reader that returns everything asked for and through one that returns at most `chunk` bytes per call.
+pub fn skip_supports(bytes: &[u8], chunk: usize) -> Result<(), String> {
+    use simple_sds::raw_vector::RawVector;
+    for ch in [usize::MAX, chunk] {
+        let mut r = crate::ser::Counting { inner: crate::ser::Chunked { inner: std::io::Cursor::new(bytes), chunk: ch }, count: 0 };
+        usize::load(&mut r).map_err(|e| e.to_string())?;
+        RawVector::load(&mut r).map_err(|e| e.to_string())?;
+        for k in 0..3 { simple_sds::serialize::skip_option(&mut r).map_err(|e| format!("skip_option over support structure {} failed: {}", k, e))?; }
+        if r.count != bytes.len() { return Err(format!("after skipping the three support structures (reads of at most {} bytes) the reader is at {} of {}", ch, r.count, bytes.len())); }
+    }
+    Ok(())
+}
+
 fn reload(o: &AnyBv) -> Result<AnyBv, String> {
     let bytes = bytes_of(o);
+    let size = match o { AnyBv::Plain(b) => b.size_in_bytes(), AnyBv::Sparse(b) => b.size_in_bytes(), AnyBv::RL(b) => b.size_in_bytes() };
+    if size != bytes.len() { return Err(format!("size_in_bytes() = {} but {} bytes were written", size, bytes.len())); }
+    if let AnyBv::Plain(_) = o { skip_supports(&bytes, [1usize, 7, 4096, 5000][bytes.len() % 4])?; }
     let mut cur = std::io::Cursor::new(&bytes);
     let r = match o {
         AnyBv::Plain(_) => BitVector::load(&mut cur).map(AnyBv::Plain),
@@ -180,14 +197,17 @@ pub fn record_conv(seed: u64, thorough: bool, path: &str) -> Value {
             let init = ["plain", "sparse", "rl"][rng.below(3)];
             let mut o = direct(init, rep, *len, runs);
             out.push(json!({"e": "o_new", "type": init}));
-            for i in 0..rng.range(2, 5) {
+            let random_steps = rng.range(2, 5);
+            // every history ends as a plain bitvector with both select structures, serialized and loaded (sizes, skip_option, load)
+            let forced = [json!({"op": "convert", "to": "plain"}), json!({"op": "enable", "s": "select"}), json!({"op": "enable", "s": "select_zero"}), json!({"op": "reload"})];
+            for i in 0..(random_steps + forced.len()) {
                 let to = ["plain", "sparse", "rl"][rng.below(3)];
                 let sup = ["rank", "select", "select_zero", "pred_succ"][rng.below(4)];
-                let c = match rng.below(8) {
+                let c = if i >= random_steps { forced[i - random_steps].clone() } else { match rng.below(8) {
                     0 | 1 | 2 => json!({"op": "convert", "to": to}),
                     3 | 4 | 5 | 6 => json!({"op": "enable", "s": sup}),
                     _ => json!({"op": "reload"}),
-                };
+                } };
                 let r = guarded(|| {
                     let mut n = match c["op"].as_str().unwrap() {
                         "convert" => convert(&o, c["to"].as_str().unwrap(), rep + i),
